@@ -347,7 +347,7 @@ def stressCase (kind : String) (toks : List String) : String :=
 def histCase (kind : String) (toks : List String) : String :=
   let t := field toks "t"; let k := field toks "k"; let seed := field toks "seed"
   if t = 0 then "bad-case" else
-  let fuel := t * 5 * (t * k) * 8 + 1024
+  let fuel := t * 5 * (t * k) * 40 + 4096
   let okTimes := fun (d : List (Rec QOp Ret)) => d.all (fun r => decide (r.invAt < r.linAt) && decide (r.linAt < r.retAt))
   let okTimesS := fun (d : List (Rec SOp Ret)) => d.all (fun r => decide (r.invAt < r.linAt) && decide (r.linAt < r.retAt))
   if kind = "q" then
